@@ -411,6 +411,16 @@ fn check_encrypted(exp: &Value, msg: &EncryptedMessage, ctx: &mut Ctx, keys: &Ke
             return Err(format!("{}: plaintext is not the canonical encoding of its envelope", path));
         }
     }
+    // the specification's nonces are fresh per encryption: two encryptions (two nonce identities) never
+    // share a nonce - with one key that would give away the XOR of the plaintexts (C03: no trace, C08)
+    let nk = format!("nonceof:{}", hex::encode(msg.nonce().data()));
+    match ctx.bind.get(&nk) {
+        Some(other) if other.as_slice() != id.as_bytes() => {
+            return Err(format!("{}: #nonce-reuse# the nonce of encrypted element {} was already used by {}", path, exp[3], String::from_utf8_lossy(other)));
+        }
+        _ => {}
+    }
+    ctx.bind.insert(nk, id.as_bytes().to_vec());
     ctx.bind.insert(id, real_bytes);
     Ok(())
 }
